@@ -867,6 +867,24 @@ def m_opt_map_or(ctx, args, callee):
     return ctx.call_closure(args[2], [_payload(ev, 1)])
 
 
+@model(r'^(std::result::)?Result::map_or$')
+def m_res_map_or(ctx, args, callee):
+    ev = args[0]
+    d = fork_variant(ctx, ev)
+    if d == 1:
+        return args[1]
+    return ctx.call_closure(args[2], [_payload(ev, 0)])
+
+
+@model(r'^(std::result::)?Result::map_or_else$')
+def m_res_map_or_else(ctx, args, callee):
+    ev = args[0]
+    d = fork_variant(ctx, ev)
+    if d == 1:
+        return ctx.call_closure(args[1], [_payload(ev, 1)])
+    return ctx.call_closure(args[2], [_payload(ev, 0)])
+
+
 @model(r'^(std::option::)?Option::map_or_else$')
 def m_opt_map_or_else(ctx, args, callee):
     ev = args[0]
@@ -1280,6 +1298,28 @@ def m_vec_index(ctx, args, callee):
     else:
         ctx.obligation(BoolVal(i < n), 'index out of bounds: the len is %d but the index is %d' % (n, i))
     return Ref(s.items[i])
+
+
+@model(r'^<Vec<.*> as (std::ops::)?Index<(std::ops::)?Range(To|From|Full)?<usize>>>::index$|^<\[.*\] as (std::ops::)?Index<(std::ops::)?Range(To|From)?<usize>>>::index$')
+def m_vec_index_range(ctx, args, callee):
+    """v[a..b], v[..b], v[a..]: panics when the range reaches past the end (documented); the result is the sub-sequence (sharing cells)"""
+    s = as_seq(ctx, args[0])
+    n = len(s.items)
+    rng = args[1]
+    kind = re.search(r'Index<(?:std::ops::)?(Range(?:To|From|Full)?)<', callee).group(1)
+    f = rng.f if isinstance(rng, Agg) else []
+    lo, hi = BitVecVal(0, 64), BitVecVal(n, 64)
+    if kind == 'Range':
+        lo, hi = f[0], f[1]
+    elif kind == 'RangeTo':
+        hi = f[0]
+    elif kind == 'RangeFrom':
+        lo = f[0]
+    ctx.obligation(ULE(hi, BitVecVal(n, 64)), 'range end index out of range for slice of length %d' % n)
+    ctx.obligation(ULE(lo, hi), 'slice index starts after its end')
+    a = ctx.concretize(lo, range(n + 1)); b = ctx.concretize(hi, range(n + 1))
+    out = Seq([]); out.items = s.items[a:b]
+    return Ref(Cell(out))
 
 
 @model(r'^(core|std)::slice::<impl \[.*\]>::get$|^Vec::get$|^VecDeque::get$|^(core|std)::slice::<impl \[.*\]>::get_mut$')
@@ -2562,6 +2602,18 @@ def m_eq_ignore_ascii_case(ctx, args, callee):
         raise Unmodelled('eq_ignore_ascii_case on a special / z3 string')
     fold = lambda t: ''.join(c.lower() if c.isascii() else c for c in t)
     return lift_bool(ctx, lambda x, y: fold(x) == fold(y), a, b)
+
+
+@model(r'^(core::)?str::<impl str>::char_indices$')
+def m_char_indices(ctx, args, callee):
+    s_ = as_str(ctx, args[0])
+    if isinstance(s_, SpecialStr) or s_.s is None:
+        raise Unmodelled('char_indices of symbolic string')
+    out = []; off = 0
+    for c in s_.s:
+        out.append(Agg([BitVecVal(off, 64), BitVecVal(ord(c), 32)])); off += len(c.encode('utf-8'))
+    it = ListIter(out)
+    return it
 
 
 # --- chars
